@@ -4,7 +4,7 @@ Finite space, enumerated completely: 9 types x 4 classes (constructor accepts if
 category is the class's own), model codes (unique, two bytes), protocol type in {1,2}, category
 present, and both port tables for every category and every type.
 """
-from mc.core import Res
+from mc.core import optimized_job as core_optimized_job, run_optimized as core_run_optimized, Res
 
 ID = "C19"
 LEVEL = "exploration"
@@ -76,6 +76,10 @@ def disturb():
     from mc.world import Capture
     from ref import broadcast as B
 
+    from aioswitcher.bridge import SwitcherBridge
+
+    for ports in (None, [10002, 10003], [20002], [20003, 10003], [10002], []):
+        SwitcherBridge(lambda d: None) if ports is None else SwitcherBridge(lambda d: None, ports)  # constructed, never started
     with Capture():
         bw = BridgeWorld(1, raise_on=lambda n, dev: n == 0)
         try:
@@ -90,7 +94,7 @@ def disturb():
 
 
 def jobs(tier, seed):
-    return [{"all": True}]
+    return core_optimized_job([{"all": True}])
 
 
 def check_case(case, res):
@@ -125,7 +129,7 @@ def check_case(case, res):
         elif not want_ok and raised != "ValueError":
             res.violation("class-accepts-foreign-type", case, f"{case['cls']}({case['type']}) built {case.get('how', 'positional')}ly in round {case.get('round', 0)} -> {raised or 'accepted'}, expected ValueError", "ValueError", raised or "accepted")
     elif k == "type":
-        res.case(("type", case["type"]))
+        res.case(("type", case["type"], case.get("round", 0)))
         dtype = getattr(d.DeviceType, case["type"], None)
         if dtype is None:
             res.violation("type-missing", case, f"DeviceType.{case['type']} missing", case["type"], None)
@@ -150,7 +154,7 @@ def check_case(case, res):
         if (udp, tcp) != PORTS[exp_pt]:
             res.violation("type-ports", case, f"{case['type']}: category {obs[1]} maps to UDP {udp} / TCP {tcp}, protocol type {exp_pt} needs {PORTS[exp_pt]}", list(PORTS[exp_pt]), [udp, tcp])
     elif k == "category":
-        res.case(("category", case["cat"]))
+        res.case(("category", case["cat"], case.get("round", 0)))
         cat = getattr(d.DeviceCategory, case["cat"], None)
         if cat is None:
             res.violation("category-missing", case, f"DeviceCategory.{case['cat']} missing", case["cat"], None)
@@ -208,6 +212,10 @@ def _cases():
     for rnd, order in enumerate((pairs, list(reversed(pairs)), sorted(pairs, key=lambda p: (p[1], p[0])), pairs)):
         if rnd == 3:
             yield {"kind": "disturb"}
+            for t in EXPECT_TYPES:
+                yield {"kind": "type", "type": t, "round": 3}
+            for c in sorted(set(CLASSES.values())):
+                yield {"kind": "category", "cat": c, "round": 3}
         for cls, t in order:
             for how in HOWS:
                 yield {"kind": "ctor", "cls": cls, "type": t, "round": rnd, "how": how}
@@ -221,6 +229,10 @@ def _cases():
 
 
 def run_job(job):
+    if job.get("part") == "optimized":
+        r0 = Res()
+        core_run_optimized(ID, job.get("tier", "quick"), r0)
+        return r0
     from aioswitcher import device as d
 
     res = Res()
@@ -246,6 +258,10 @@ def run_job(job):
 
 
 def replay(case):
+    if isinstance(case, dict) and case.get("part") == "optimized":
+        r0 = Res()
+        core_run_optimized(ID, case.get("tier", "quick"), r0)
+        return r0.violations
     res = Res()
     if case.get("kind") == "extra" or case.get("round"):
         # a verdict that depends on earlier attempts needs the whole sequence of attempts
